@@ -32,6 +32,10 @@ Value& REPLACEExpression::value(Context & ctx) const
   Value& a1 = _args[1]->value(ctx);
   Value v(Value::type_literal);
 
+  /* a table, null or not, is not an argument of this function */
+  if (val.type().level())
+    throw RuntimeError(EXC_RT_FUNC_ARG_TYPE_S, KEYWORDS[oper]);
+
   switch (val.type().major())
   {
   case Type::NO_TYPE:
